@@ -68,7 +68,7 @@ func stripNullsDeep(v any) any {
 
 func C04(r *Run) {
 	if !r.Thorough() {
-		FilesShardFraction = 3 // a third of the 1575 (chain, assignment) layouts per quick run
+		FilesShardFraction = 4 // a quarter of the (chain, assignment) layouts per quick run
 	}
 	st := modelFiles(r, "C04")
 	FilesShardFraction = 1
@@ -103,6 +103,10 @@ func C04(r *Run) {
 				vers[g.Pick(fsx.PlainKeyStrings)] = []any{"stable", "next", 1, 2.5, true}[g.N(5)]
 			}
 			base["vers"] = vers
+		}
+		if g.P(0.3) { // whole-valued doubles: 3.0 is not 3 for any comparison, whatever the format
+			base["whole"] = []float64{3, -2, 100000, 0, 7}[g.N(5)] // below 1e6: the canonical payload is then a digit string
+			base["wl"] = []any{map[string]any{"id": 2.0, "v": "a"}, map[string]any{"id": 2, "v": "b"}}
 		}
 		layers := [][]any{{base}}
 		if g.P(0.2) {
